@@ -12,6 +12,10 @@
 //! wrote (by offsets, from the raw bytes).  `dropped` = subset_font Ok without the table,
 //! `fail` = Err(SubsetTableError(tag)), `trap` = panic.
 //!
+//! reader correspondence (`hvar-reader`): read-fonts' `advance_width_delta` / `lsb_delta` / ... (VVAR
+//! equivalents) on the original and on the subset table vs the model's `readerDelta` (the function the
+//! theorems are stated with) on the same plain data.
+//!
 //! oracle (real code only): for every kept glyph, every map (advance, lsb/tsb, rsb/bsb, vorg) and a
 //! set of normalised locations, read-fonts' delta on the subset at the new gid == on the original
 //! at the old gid.
@@ -863,6 +867,18 @@ fn run_request(s: &mut Session, r: &mut Rng, label: &str, data: &[u8], req: &Req
         let Ok(sf) = FontRef::new(sub) else { continue };
         let coords = coord_sets(r, &v, nloc);
         let dropped = sf.table_data(Tag::new(tag)).is_none();
+        if corr {
+            // the reader of the theorems, on the original (old gids, plus one beyond the maps) and on the subset (new gids)
+            let mut olds: Vec<u32> = pv.new_to_old_gid_list.iter().map(|p| p.1).collect();
+            olds.push(pv.font_num_glyphs as u32 + 3);
+            reader_cases(s, r, &font, *vertical, &v, &olds, &coords, 2);
+            if !dropped {
+                if let Some(sv) = extract(&sf, *vertical) {
+                    let news: Vec<u32> = pv.new_to_old_gid_list.iter().map(|p| p.0).collect();
+                    reader_cases(s, r, &sf, *vertical, &sv, &news, &coords, 2);
+                }
+            }
+        }
         if dropped {
             s.count(if v.regions.is_empty() { "hvar:dropped:zero-regions" } else { "hvar:dropped:other" });
         }
@@ -907,6 +923,32 @@ fn run_request(s: &mut Session, r: &mut Rng, label: &str, data: &[u8], req: &Req
         if checked > 0 {
             s.oracle("hvar-delta-preserved", bad.is_none(), || input.clone(), || bad.clone().unwrap_or_default());
         }
+    }
+}
+
+/// reader correspondence: read-fonts' advance/lsb/... delta vs the model's `readerDelta` on the same plain data
+fn reader_cases(s: &mut Session, r: &mut Rng, font: &FontRef, vertical: bool, v: &VarT, gids: &[u32], coords: &[Vec<F2Dot14>], count: usize) {
+    if gids.is_empty() || coords.is_empty() || v.subs.iter().any(|x| matches!(x, SubSlot::Bad)) {
+        return;
+    }
+    // the whole table travels with every request: small tables only
+    let size: usize = v.subs.iter().map(|x| if let SubSlot::Ok(st) = x { st.data.len() } else { 0 }).sum::<usize>()
+        + v.maps.iter().flatten().map(|m| m.data.len()).sum::<usize>();
+    if size > 4096 {
+        s.count("hvar:reader-skip:big-table");
+        return;
+    }
+    let base = request_line(v, &[], &[], false).replacen("c17.hvar.table", "c17.hvar.delta", 1);
+    for _ in 0..count {
+        let k = r.below(v.maps.len() as u64) as usize;
+        let gid = *r.pick(gids);
+        let c = r.pick(coords);
+        let real = match delta(font, vertical, k, gid, c) {
+            Ok(bits) => format!("ok {bits}"),
+            Err(_) => "err".to_string(),
+        };
+        let cs = if c.is_empty() { "-".to_string() } else { c.iter().map(|x| x.to_bits().to_string()).collect::<Vec<_>>().join(" ") };
+        s.case("hvar-reader", format!("{base} D {k} {gid} C {cs}"), real);
     }
 }
 
